@@ -221,9 +221,11 @@ fn main() {
             cr
         }));
         // ------------------------------------------------------------ filter
-        // operations: 0..16 add/remove (e,t): op = kind*8 + e*2 + t ; 16..24 add_all/remove_all: 16 + kind*4 + e
+        // operations: 0..16 add/remove (e,t): op = kind*8 + e*2 + t ; 16..24 add_all/remove_all: 16 + kind*4 + e ;
+        // 24 / 25 set_tsi_filtering(false / true): the counts are a matter of the add / remove history, whatever the
+        // switch said when they were made; with the switch off every packet is processed
         let depth = ctx.tier.pick(3u32, 4);
-        let nops = 24usize;
+        let nops = 26usize;
         let total = nops.pow(depth);
         const CHF: usize = 576;
         let probe_pkts: Arc<Vec<Vec<u8>>> = Arc::new(vec![mini_session(1, Fec::NoCode, 10, 1)[0].clone(), mini_session(2, Fec::NoCode, 10, 1)[0].clone()]);
@@ -249,7 +251,9 @@ fn main() {
                     let mut rx = MultiReceiver::new(b, Some(RxConfig { object_timeout: None, ..Default::default() }), true);
                     rx.add_listener(RecListener { log: opens.clone(), call: call.clone() });
                     for op in &ops {
-                        if *op < 16 {
+                        if *op >= 24 {
+                            rx.set_tsi_filtering(*op == 25);
+                        } else if *op < 16 {
                             let (kind, e, t) = (op / 8, (op % 8) / 2, 1 + (op % 2) as u64);
                             if kind == 0 {
                                 rx.add_listen_tsi(ep(e), t);
@@ -275,8 +279,11 @@ fn main() {
                     }
                     res
                 });
+                let mut enabled = true;
                 for op in &ops {
-                    if *op < 16 {
+                    if *op >= 24 {
+                        enabled = *op == 25;
+                    } else if *op < 16 {
                         let (kind, e, t) = (op / 8, (op % 8) / 2, 1 + (op % 2) as u64);
                         let ent = listen.entry((e, t)).or_insert(0);
                         if kind == 0 {
@@ -305,16 +312,16 @@ fn main() {
                     nprobe += 1;
                     // endpoint with the source wildcarded: 0 -> 1, 2 -> 3
                     let nosrc = if e % 2 == 0 { e + 1 } else { e };
-                    let want = bypass.get(&e).copied().unwrap_or(0) > 0 || listen.get(&(e, t)).copied().unwrap_or(0) > 0 || listen.get(&(nosrc, t)).copied().unwrap_or(0) > 0;
+                    let want = !enabled || bypass.get(&e).copied().unwrap_or(0) > 0 || listen.get(&(e, t)).copied().unwrap_or(0) > 0 || listen.get(&(nosrc, t)).copied().unwrap_or(0) > 0;
                     if processed {
                         accepted += 1;
                     }
                     if processed != want {
-                        let name = |op: &usize| if *op < 16 { format!("{}({},tsi{})", if op / 8 == 0 { "add" } else { "remove" }, epname(&ep((op % 8) / 2)), 1 + op % 2) } else { format!("{}({})", if (op - 16) / 4 == 0 { "add_all" } else { "remove_all" }, epname(&ep((op - 16) % 4))) };
+                        let name = |op: &usize| if *op >= 24 { format!("set_tsi_filtering({})", *op == 25) } else if *op < 16 { format!("{}({},tsi{})", if op / 8 == 0 { "add" } else { "remove" }, epname(&ep((op % 8) / 2)), 1 + op % 2) } else { format!("{}({})", if (op - 16) / 4 == 0 { "add_all" } else { "remove_all" }, epname(&ep((op - 16) % 4))) };
                         cr.violations.push(Violation::new("filter_decision", format!(
                             "after {:?} a packet from {} with TSI {} is {} but the reference filter says {}", ops.iter().map(name).collect::<Vec<_>>(), epname(&ep(e)), t,
                             if processed { "processed" } else { "dropped" }, if want { "processed" } else { "dropped" }))
-                            .with("processed", processed).with("probe_has_source", e % 2 == 0)
+                            .with("processed", processed).with("probe_has_source", e % 2 == 0).with("switch_toggled", ops.iter().any(|o| *o >= 24))
                             .witness(json!({"ops": ops})));
                     }
                 }
